@@ -25,6 +25,11 @@ class Streams:
         return f"{what}[{sid}]#{k}"
 
 
+def _replay_rng(name):
+    import zlib
+    return np.random.RandomState(zlib.crc32(name.encode()))
+
+
 class FakeGen:
     def __init__(self, streams, sid, draws=None):
         self.streams = streams
@@ -34,7 +39,11 @@ class FakeGen:
     def _one(self):
         if self.draws is not None:
             return next(self.draws)
-        return core.sym_real(self.streams.next_name(self.sid), 0.0, 1.0 - 2 ** -53)
+        name = self.streams.next_name(self.sid)
+        if not core.CTX.active:
+            # concrete replay / translator-validation run: a fixed concrete draw per (stream, position) that satisfies the contract
+            return float(_replay_rng(name).random_sample()) * (1.0 - 2 ** -53)
+        return core.sym_real(name, 0.0, 1.0 - 2 ** -53)
 
     def random(self, n=None):
         if n is None:
@@ -46,6 +55,8 @@ class FakeGen:
         if self.draws is not None:
             return [next(self.draws) for _ in range(k)]
         base = self.streams.next_name(self.sid, "c") + f"(n={int(n)})"
+        if not core.CTX.active:
+            return [int(x) for x in _replay_rng(base).multinomial(int(n), [1.0 / k] * k)]
         cs = [core.sym_int(f"{base}.{j}", 0, int(n)) for j in range(k)]
         tot = 0
         for c_ in cs:
@@ -276,7 +287,11 @@ def ob_seed_flow(entry):
                 np.random.random(pre)
                 return run_entry(entry, seed, DG, EX, p)
             a, b, c_ = call(7), call(7, pre=5), call(8)
-            same = lambda x, y: all(np.array_equal(np.asarray(u), np.asarray(v)) for u, v in zip(x, y))
+            def same(x, y):
+                # results are nested lists / tuples of numbers and arrays (ragged): compare leaf by leaf
+                if isinstance(x, (list, tuple)) or isinstance(y, (list, tuple)):
+                    return isinstance(x, (list, tuple)) and isinstance(y, (list, tuple)) and len(x) == len(y) and all(same(u, v) for u, v in zip(x, y))
+                return bool(np.array_equal(np.asarray(x), np.asarray(y)))
             outc = [Holds("same seed, different global state: same output", same(a, b)), Holds("different seed: different output", not same(a, c_))]
             # successive draws of one seeded call differ: two identical distributions sampled with 200 shots each in ONE call
             # coincide only if the same random numbers were used twice (probability of an honest coincidence < 1e-3)
